@@ -335,12 +335,14 @@ struct Machine {
     int sparse = (int)ch.below(2);
     std::vector<int64_t> mat(s.nr * s.nc * n);
     s.v.assign(s.nr * s.nc, Poly(n, 0));
-    for (uint64_t e = 0; e < s.nr * s.nc; ++e)
+    for (uint64_t e = 0; e < s.nr * s.nc; ++e) {
+      if (ch.below(6) == 0) continue;  // a zero polynomial entry (its block of the prepared matrix must still be written)
       for (uint64_t q = 0; q < n; ++q) {
         int64_t x = (sparse && ch.below(4)) ? 0 : (int64_t)ch.below((1ull << bits)) * (ch.below(2) ? -1 : 1);
         mat[e * n + q] = x;
         s.v[e][q] = x;
       }
+    }
     s.p = buf(bytes_of_vmp_pmat(mod, s.nr, s.nc), (int)ch.below(4));
     uint8_t* t = buf(vmp_prepare_contiguous_tmp_bytes(mod, s.nr, s.nc), (int)ch.below(4));
     vmp_prepare_contiguous(mod, (VMP_PMAT*)s.p, mat.data(), s.nr, s.nc, t);
